@@ -90,7 +90,7 @@ NoStatic == Statics(S) = {}
 
 TargetName == IF Tgt = "auto" THEN (IF Hz = 0 THEN "spy" ELSE "spy_hz") ELSE Tgt
 NewOp0(name, b, tpl, fin, tw, tf) ==
-    [op |-> name, b |-> b, len |-> 3, tpl |-> tpl, fin |-> fin, tabw_first |-> tf, fm |-> <<70>>, m0 |-> IF M0 = "id" THEN <<48 + b>> ELSE <<>>, p0 |-> <<>>, pos0 |-> 0,
+    [op |-> name, b |-> b, len |-> 3, tpl |-> tpl, fin |-> fin, tabw_first |-> tf, fm |-> <<70>>, m0 |-> IF M0 = "id" THEN <<48 + b>> ELSE IF M0 = "idw" THEN <<48 + b>> \o Run(W, 97) ELSE <<>>, p0 |-> <<>>, pos0 |-> 0,
      tabw |-> tw, target |-> TargetName, hz |-> Hz, idx |-> 0, b2 |-> 0, dt |-> 0]
 
 NewOp(name, b, tpl, fin) == NewOp0(name, b, tpl, fin, 8, FALSE)
@@ -119,7 +119,7 @@ OpsNow ==
     (* operations on live bars *)
     UNION { UNION { (CASE nm \in {"finish", "finish_and_clear", "abandon", "finish_using_style"}
                             -> IF Once /\ S.bars[b].fin # "no" THEN {} ELSE { BarOp(nm, b, dt) }
-                       [] nm \in {"tick", "reset", "force_draw", "drop", "clone", "drop_one"}
+                       [] nm \in {"tick", "reset", "force_draw", "drop", "clone", "drop_one", "is_hidden", "downgrade", "reset_elapsed"}
                             -> { BarOp(nm, b, dt) }
                        [] nm = "burst" -> { ([n |-> 25] @@ BarOp(nm, b, dt)) }
                        [] nm \in {"inc", "set_position", "set_length", "inc_length", "dec_length"}
@@ -142,6 +142,8 @@ OpsNow ==
     (* fault injection (C18): once per history *)
     (IF S.ids # {} /\ ~\E j \in 1..Len(hist) : hist[j].op = "fail_at"
        THEN { [op |-> "fail_at", b |-> 0, dt |-> 0, n |-> k, sticky |-> st] : k \in Faults, st \in BOOLEAN } ELSE {}) \cup
+    (* a WeakProgressBar may be upgraded after the bar is gone, too *)
+    (IF "upgrade" \in BarOps THEN { BarOp("upgrade", b, 0) : b \in {x \in S.ids : S.bars[x].weak} } ELSE {}) \cup
     (* operations on the MultiProgress *)
     (IF Multi
        THEN UNION { (CASE nm \in {"mp_println", "mp_suspend"}
@@ -152,7 +154,7 @@ OpsNow ==
        ELSE {})
 
 (* Records handed to Apply need every field it may read. *)
-Full(o) == o @@ [b2 |-> 0, idx |-> 0, n |-> 0, m |-> <<>>, tpl |-> "", a |-> "", target |-> "spy"]
+Full(o) == o @@ [b2 |-> 0, idx |-> 0, n |-> 0, m |-> <<>>, tpl |-> "", a |-> "", target |-> "spy", t |-> 0]
 
 (* For generation the contract state is advanced assuming every paint      *)
 (* happens, statics stay and new log lines go last.                        *)
@@ -163,7 +165,7 @@ Advance(o) ==
     IN [res.S EXCEPT !.above = hm.above \o items, !.order = hm.order]
 
 RECURSIVE PreOps(_)
-PreOps(n) == IF n = 0 THEN <<>> ELSE Append(PreOps(n - 1), [NewOp("add", n, CHOOSE t \in Tpls : TRUE, CHOOSE f \in Fins : TRUE) EXCEPT !.m0 = <<48 + n>>])
+PreOps(n) == IF n = 0 THEN <<>> ELSE Append(PreOps(n - 1), NewOp("add", n, CHOOSE t \in Tpls : TRUE, CHOOSE f \in Fins : TRUE))
 RECURSIVE PreState(_, _, _)
 PreState(S0, ops, i) == IF i > Len(ops) THEN S0 ELSE PreState(Apply(S0, Full(ops[i])).S, ops, i + 1)
 
@@ -213,7 +215,7 @@ IAdvance(i, o, S0, S1) ==
               [] o.op \in {"mp_suspend", "suspend"} -> IPaint([i EXCEPT !.zl = 0, !.ll = 0], S1, FALSE)
               [] o.op = "drop" -> IF ~inord THEN i
                                   ELSE IZombie(IF S0.bars[o.b].fin = "no" THEN IPaint(i, S1, FALSE) ELSE i, S1, o.b)
-              [] o.op \in {"set_style", "clone", "drop_one", "mp_set_alignment", "reset_eta", "reset_elapsed", "fail_at"} -> i
+              [] o.op \in {"set_style", "clone", "drop_one", "mp_set_alignment", "reset_eta", "reset_elapsed", "fail_at", "is_hidden", "downgrade", "upgrade"} -> i
               [] OTHER -> IF inord THEN IPaint(i, S1, FALSE) ELSE i
 
 Step == /\ Len(hist) < D
